@@ -86,7 +86,7 @@ pub fn run_scenario(seed: u64, i: usize, cells: &[Cell], tier: Tier) -> Outcome 
             s.ext = e;
             // some routers answer with destination unreachable (net / host / prohibited)
             if r.chance(1, 10) {
-                s.router_unreach = Some(*r.pick(&[0u8, 1, 13]));
+                s.router_unreach = Some(*r.pick(&[0u8, 1, 13, 3]));
             }
             s
         })
